@@ -269,6 +269,19 @@ Definition c02_judge_orig (c : wg_case) : nat :=
 Definition mon_agree (c : wg_case) : nat :=
   if Bool.eqb (c01_ok (obs_trace c)) (c01_decl (obs_trace c)) then 0%nat else 2%nat.
 
+(* trace-only judgement, for a source whose structure is not the one the machine models (the tie
+   is broken and the shared-memory operations differ): no model state is compared, the recorded
+   trace is judged by the property's monitor alone - verdict 1 or 0; a recording that is not
+   well formed is a harness failure (2) *)
+Definition c01_trace_judge (c : wg_case) : nat :=
+  if in_domain c then
+    if obs_wf c then (if c01_ok (obs_trace c) then 0%nat else 1%nat) else 2%nat
+  else 0%nat.
+Definition c02_trace_judge (c : wg_case) : nat :=
+  if in_domain c then
+    if obs_wf c then (if c02_ok (obs_trace c) && tmo_ok c then 0%nat else 1%nat) else 2%nat
+  else 0%nat.
+
 (* model-only correspondence (spec ignored): used to tell apart code 2 from code 1 causes *)
 Definition corr_judge (c : wg_case) : nat := if model_eq c then 0%nat else 2%nat.
 
